@@ -371,6 +371,94 @@ def check_preserve(ctx):
         ctx.check(len(ln) >= 1, inst, "PIN", b.path, "and the number of records per batch", None)
 
 
+def check_batches(ctx):
+    """migration walks the source's ordered index in batches: every record is visited exactly once only if a batch resumes
+    strictly after the last key of the previous one, starts at the front, advances entry by entry and the walk ends on an
+    empty batch only"""
+    inst = "C15.batches"
+    b = ctx.fn("migration::record_batch", inst)
+    if b is not None:
+        lb = ctx.sites(b, R.call("SkipMap::lower_bound"), inst, exact=1)
+        fr = ctx.sites(b, R.call("SkipMap::front"), inst, exact=1)
+        nx = ctx.sites(b, R.call("Entry::next"), inst, exact=1)
+        ps = ctx.sites(b, R.call("Vec::push"), inst, exact=1)
+        for x in lb:
+            bd = R.arg_expr(b, b.nodes[x], 1)
+            ctx.check(bd.k == "agg" and str(bd.extra).endswith("Bound::Excluded") and bd.has_arg(idx=2), inst, "PIN", b.path,
+                      "a batch resumes strictly after the previous batch's last key (Bound::Excluded(after))", b.where(x), {"bound": bd.show()[:80]})
+        some = A.pred_edges(b, lambda e: e.k == "arg" and e.extra[0] == 2, "Some")
+        none = A.pred_edges(b, lambda e: e.k == "arg" and e.extra[0] == 2, "None")
+        R.guard(ctx, inst, b, lb, some, "the resume bound is used when a previous key exists")
+        R.guard(ctx, inst, b, fr, none, "the first batch starts at the front of the index")
+        R.follow(ctx, inst, b, ps, nx, "after a record is taken the cursor advances to the next entry", exits=b.return_nodes() + ps, b_desc="entry.next()")
+        for x in ps:
+            v = R.arg_expr(b, b.nodes[x], 1)
+            ctx.check(v.has_call("TreeSlot::load"), inst, "PROVENANCE", b.path, "the record taken is the one the cursor's slot holds", b.where(x))
+        # the cursor only ever holds lower_bound(..) / front() / entry.next()
+        from rules import roles
+        cur = None
+        for x in nx:
+            d = b.nodes[x].ev.get("dest", {}).get("l")
+            # follow `cursor = move _tmp`
+            for n2 in b.nodes:
+                if n2.kind == "assign" and n2.ev.get("rv") == "use" and R.op_local(n2.ev["a"]) == d and not n2.ev["dst"]["p"]:
+                    cur = n2.ev["dst"]["l"]
+        ctx.check(cur is not None, inst, "anchor", b.path, "the cursor variable is assigned from entry.next()", None)
+        if cur is not None:
+            tr = A.tracer(b, transparent=False)
+            for d in b.defs.get(cur, []):
+                v = tr.node_value(d)
+                okv = v.k == "call" and any(path_matches(v.extra, w) for w in ("SkipMap::lower_bound", "SkipMap::front", "Entry::next"))
+                ctx.check(okv, inst, "PIN", b.path, "the cursor is only ever the resume position, the front, or the direct successor of the entry just taken", b.where(d), {"value": v.show()[:80]})
+        cap = A.pred_switches(b, lambda e: e.k == "bin" and e.extra == "Lt" and e.has_call("Vec::len") and e.has_const(name="MIGRATION_SCAN_RECORDS"))
+        ctx.check(len(cap) == 1, inst, "PIN", b.path, "a batch holds at most MIGRATION_SCAN_RECORDS records", None)
+    for fn in ("migration::source_layout", "migration::copy_records", "migration::verify_records"):
+        c = ctx.fn(fn, inst)
+        if c is None:
+            continue
+        rb = ctx.sites(c, R.call("migration::record_batch"), inst, floor=1)
+        lasts = R.call("slice::last")(c)
+        ctx.check(len(lasts) >= 1, inst, "anchor", c.path, "the walk looks at the last record of each batch", None)
+        # the resume key handed to the next batch is the last record's key
+        for x in rb:
+            a = R.arg_expr(c, c.nodes[x], 1)
+            nm = names_of(c, a) | origin_names(c, a)
+            ctx.check(bool(nm & {"after", "source_after", "destination_after"}) or a.has_call("Option::as_deref"), inst, "PROVENANCE", c.path,
+                      "each batch is requested after the resume key", c.where(x), {"names": sorted(nm)})
+        if fn.endswith("verify_records"):
+            # resume keys: records.last().map(|record| record.key.clone()) for both walks; the walk ends only when both are empty
+            maps = [n for n in c.calls() if R.call_matches(n.ev, "Option::map") and R.recv_expr(c, n).has_call("slice::last")]
+            ctx.check(len(maps) == 2, inst, "PROVENANCE", c.path, "both resume keys come from the last record of their own batch (found %d)" % len(maps), None)
+            from rules.common import closure_carriers
+            for mnode in maps:
+                okc = False
+                for cl in ctx.prog.closures_of(c):
+                    if mnode.id in closure_carriers(c, cl):
+                        ds = cl.defs.get(0, [])
+                        v = A.tracer(cl).node_value(ds[0]) if len(ds) == 1 else None
+                        okc = v is not None and v.has_field("Record", "key")
+                ctx.check(okc, inst, "PROVENANCE", c.path, "the resume key is that record's key", c.where(mnode.id))
+            oks = A.ok_nodes(c)
+            emp = [n.id for n in c.calls() if R.call_matches(n.ev, "Vec::is_empty")]
+            ctx.check(len(emp) == 2, inst, "anchor", c.path, "both batches are tested for emptiness", None)
+            for e_ in emp:
+                R.guard(ctx, inst, c, oks, R.guard_edges_for_call(c, [e_], "true"), "verification succeeds only when both walks are exhausted")
+            ln = A.pred_switches(c, lambda e: e.k == "bin" and e.extra == "Eq" and sum(1 for x in e.calls() if path_matches(x.extra, "Vec::len")) == 2)
+            ctx.check(len(ln) == 1, inst, "PIN", c.path, "batches of different length fail verification", None)
+            continue
+        # `after` is assigned from last.key
+        ok = False
+        for n in c.nodes:
+            if n.kind == "assign" and n.ev.get("rv") == "agg" and n.ev.get("var") == "Some":
+                v = A.tracer(c).node_value(n.id)
+                if v.has_call("slice::last") and v.has_field("Record", "key"):
+                    ok = True
+        ctx.check(ok, inst, "PROVENANCE", c.path, "the resume key is the key of the last record of the batch just processed", None)
+        # the walk ends only on an empty batch
+        none_e = R.guard_edges_for_call(c, lasts, "None")
+        ctx.check(bool(none_e), inst, "anchor", c.path, "`records.last()` is matched (empty batch ends the walk)", None)
+
+
 def check_mask(ctx):
     """the read-only scan does not replay the allocation journal, it *masks* the journaled extents with a forward cursor;
     that is faithful to a real recovery only if the cursor walks the extents in ascending start order from index 0"""
@@ -455,6 +543,7 @@ def check_mask(ctx):
 
 
 def check(ctx):
+    check_batches(ctx)
     check_mask(ctx)
     check_ro(ctx)
     check_dest(ctx)
